@@ -7,7 +7,7 @@ import ast
 from .facts import (COUNTMIN, SKETCH_CLASSES, array_alloc, const_int, facts_of, init_attr_defs, scalar_ctor)
 from .flow import NP_DTYPES, Arr, Bytes, Num, Opaque, Tup, c_not, conjuncts, show_cond
 from .lin import Lin, show_lin
-from .model import AnalysisError, Ty, call_name, calls_in, dotted, self_attr, unparse, walk_no_nested
+from .model import AnalysisError, Ty, call_name, calls_in, dotted, resolve_temps, self_attr, unparse, walk_no_nested
 from .rules_arith import agg, fact_strs, group_by_node, on_path, src
 
 # ---------------------------------------------------------------------------
@@ -41,77 +41,114 @@ def rule_mergeguard(ctx, classes=SKETCH_CLASSES):
                    "an inherited merge guard compares every parameter of this class", req <= got,
                    "" if req <= got else "inherited guard cannot compare %s" % sorted(req - got))
             continue
-        body = m.body()
         other = m.params[1] if len(m.params) > 1 else "other"
-        first = body[0] if body else None
-        # ---- guard-first
-        okk = isinstance(first, ast.If) and not first.orelse and first.body and isinstance(first.body[-1], ast.Raise) \
-            and all(isinstance(s, (ast.Raise, ast.Expr, ast.Assign)) for s in first.body)
-        ctx.ob("guard-first", m, first or m.node, "first statement of %s" % m.qualname,
-               "the compatibility guard is the first statement: nothing is computed or written before a refusal", bool(okk),
-               "" if okk else "first statement is `%s`, not `if <mismatch>: raise ...`" % (unparse(first, 70) if first else "<empty>"))
-        if not okk:
-            continue
-        rz = first.body[-1]
-        exc = rz.exc
-        ename = dotted(exc.func) if isinstance(exc, ast.Call) else dotted(exc) if exc is not None else None
-        ctx.ob("guard-first", m, rz, "raise %s" % ename, "a refused merge raises TypeError", ename == "TypeError",
-               "" if ename == "TypeError" else "raises %s" % ename)
-        # the refusal itself must be constructible for every operand the guard can refuse: in the count-min family `other` may
-        # be a linear sketch, which lacks the log-only attributes
-        if cls.module.short == "countmin":
-            base_attrs0 = {d.attr for d in init_attr_defs(F.ctor(ctx.model.cls("countmin", "CountMinLinear")))}
-            used = sorted({n.attr for st_ in first.body for n in ast.walk(st_) if isinstance(n, ast.Attribute)
-                           and isinstance(n.value, ast.Name) and n.value.id == other})
-            bad_attrs = [a for a in used if a not in base_attrs0]
-            ctx.ob("guard-order", m, rz, "raise in %s reads other.%s" % (m.qualname, used or "nothing"),
-                   "building the refusal only touches attributes every count-min sketch has (a log/linear pair raises TypeError, not AttributeError)",
-                   not bad_attrs, "" if not bad_attrs else "the raise statement evaluates other.%s, which a linear sketch does not have" % bad_attrs[0])
-        side = [n for n in ast.walk(first.test) if isinstance(n, (ast.Call, ast.NamedExpr, ast.Await, ast.Yield))]
-        ctx.ob("guard-first", m, first, "guard test of %s" % m.qualname, "the guard test has no calls / side effects", not side,
-               "" if not side else "test contains %s" % unparse(side[0], 50))
-        # kernel call dominated by the fall-through: every kernel call is a later top-level statement (or nested after it)
-        kcalls = [k for k in F.calls_from(m) if k.callee.is_kernel]
-        pos_ok = all(k.node.lineno > first.end_lineno for k in kcalls) and bool(kcalls)
-        ctx.ob("guard-first", m, kcalls[0].node if kcalls else m.node, "kernel call in %s" % m.qualname,
-               "the merge kernel runs only after the guard fell through", pos_ok)
-        # no other raise between guard and kernel
-        # ---- guard-set
-        w = F.walk(m)
-        br = [e for e in w.events if e.kind == "branch" and e.node is first]
-        if not br:
-            ctx.ob("guard-set", m, first, "guard of %s" % m.qualname, "guard readable", None, "no branch event")
-            continue
-        agree = c_not(br[0].cond)        # condition under which the merge proceeds
-        compared, unknown = [], []
-        for c in conjuncts(agree):
-            x = _attr_pair(c, other)
-            if x:
-                compared.append(x)
-            else:
-                unknown.append(c)
         req = required_guard_attrs(F, cls)
+        w = F.walk(m)
+        kcalls = [e for e in w.events if e.kind == "call" and e.callee is not None and e.callee.is_kernel]
+        raises = [e for e in w.events if e.kind == "raise"]
+        site = kcalls[0].node if kcalls else m.node
+
+        def decisions(ev, sc=()):
+            """The non-trivial conditions known to hold at `ev`: branch decisions of its path + short-circuit context."""
+            out = []
+            for (_, _, cc) in ev.path:
+                if isinstance(cc, tuple) and cc and cc[0] not in ("true",):
+                    out.append(cc)
+            out.extend(sc)
+            return out
+
+        def known_equal(ev, sc=()):
+            eq = set()
+            for cc in decisions(ev, sc):
+                for c in conjuncts(cc):
+                    x = _attr_pair(c, other)
+                    if x:
+                        eq.add(x)
+            return eq
+
+        def differing(cc):
+            """Attributes whose inequality `cc` asserts (as a disjunction of self.X != other.X), or None if cc is something else."""
+            if cc[0] == "or":
+                out = []
+                for x in cc[1]:
+                    d = differing(x)
+                    if d is None:
+                        return None
+                    out.extend(d)
+                return out
+            x = _attr_pair(c_not(cc), other)
+            return [x] if x else None
+
+        # ---- guard-set (soundness): the kernel is reached only when every required parameter compared equal
+        ctx.ob("guard-first", m, site, "kernel call in %s" % m.qualname, "merge() reaches its merge kernel", bool(kcalls),
+               "" if kcalls else "no kernel call")
         for a in req:
-            okk = a in compared
-            ctx.ob("guard-set", m, first, "self.%s != %s.%s" % (a, other, a),
-                   "sketches differing in `%s` are refused" % a, okk,
-                   "" if okk else "`%s` is not compared: incompatible sketches merge silently" % a)
-        extra = [a for a in compared if a not in req and a not in DERIVED_OK]
-        ctx.ob("guard-set", m, first, "guard of %s compares %s" % (m.qualname, sorted(set(compared))),
-               "sketches that agree on the required parameters are never refused", not extra and not unknown,
-               "" if not extra and not unknown else ("extra comparison(s) %s refuse compatible sketches" % extra if extra else
-                                                      "unrecognised guard term %s" % show_cond(unknown[0])))
-        # ---- guard-order (count-min): the discriminator is evaluated before attributes CountMinLinear lacks
+            res = []
+            for k in kcalls:
+                okk = a in known_equal(k)
+                res.append((okk, "self.%s == %s.%s was decided on the path" % (a, other, a) if okk else
+                            "`%s` is not compared on a path that reaches the kernel: incompatible sketches merge silently" % a, fact_strs(k)))
+            agg(ctx, "guard-set", m, site, "self.%s != %s.%s" % (a, other, a), "sketches differing in `%s` are refused" % a, res)
+        # ---- guard-set (completeness): a refusal happens only because a required parameter differs
+        res, compared = [], set()
+        for r in raises:
+            ds = [cc for cc in decisions(r) if not all(_attr_pair(c, other) for c in conjuncts(cc))]
+            bad = None
+            if not ds:
+                bad = "raises although every compared parameter agrees"
+            for cc in ds:
+                for c in conjuncts(cc):
+                    if _attr_pair(c, other):
+                        continue
+                    d = differing(c)
+                    if d is None:
+                        bad = "unrecognised guard term %s" % show_cond(c)
+                    else:
+                        compared.update(d)
+                        extra = [x for x in d if x not in req and x not in DERIVED_OK]
+                        if extra:
+                            bad = "extra comparison(s) %s refuse compatible sketches" % extra
+            res.append((bad is None, bad or "refused because a required parameter differs", fact_strs(r)))
+        for k in kcalls:
+            compared |= known_equal(k)
+        agg(ctx, "guard-set", m, raises[0].node if raises else m.node, "guard of %s compares %s" % (m.qualname, sorted(compared)),
+            "sketches that agree on the required parameters are never refused", res or [(False, "merge() never refuses", [])])
+        # ---- guard-first: a refusal is a TypeError raised before anything is written
+        for r in raises:
+            ctx.ob("guard-first", m, r.node, "raise %s" % r.exc_name, "a refused merge raises TypeError", r.exc_name == "TypeError",
+                   "" if r.exc_name == "TypeError" else "raises %s" % r.exc_name)
+        res = []
+        for r in raises:
+            pre = on_path(w.events, r)
+            eff = [x for x in pre if x.kind in ("store", "slicestore", "attrstore", "otherstore", "delete")
+                   or (x.kind == "call" and x.callee is not None and x.callee.is_kernel)
+                   or (x.kind == "call" and x.callee is None and _effectful_call(x))]
+            res.append((not eff, "nothing is written before the refusal" if not eff else
+                        "`%s` runs before the refusal: a refused merge is not a no-op" % unparse(eff[0].node, 60), fact_strs(r)))
+        agg(ctx, "guard-first", m, raises[0].node if raises else m.node, "refusal paths of %s" % m.qualname,
+            "the compatibility guard comes first: nothing is computed into the sketch or written before a refusal",
+            res or [(False, "merge() never refuses", [])])
+        res = []
+        for k in kcalls:
+            pre = on_path(w.events, k)
+            eff = [x for x in pre if x.kind in ("store", "slicestore", "attrstore", "otherstore", "delete")]
+            res.append((not eff, "the kernel call is the first write" if not eff else "`%s` precedes the merge kernel" % unparse(eff[0].node, 60),
+                        fact_strs(k)))
+        agg(ctx, "guard-first", m, site, "writes before the kernel in %s" % m.qualname, "nothing is written between the guard and the merge kernel", res)
+        # ---- guard-order (count-min): attributes a linear sketch lacks are read only once the counter types are known to agree
         if cls.module.short == "countmin":
             base_attrs = {d.attr for d in init_attr_defs(F.ctor(ctx.model.cls("countmin", "CountMinLinear")))}
-            order = _compare_order(first.test, other)
-            if DISCRIMINATOR in order:
-                di = order.index(DISCRIMINATOR)
-                late = [a for a in order[:di] if a not in base_attrs]
-                ctx.ob("guard-order", m, first, "order %s" % order,
-                       "the counter-type discriminator is compared before attributes a linear sketch does not have "
-                       "(so a log/linear pair raises TypeError, not AttributeError)", not late,
-                       "" if not late else "%s evaluated before uint_maxval" % late)
+            loads = [e for e in w.events if e.kind == "attrload" and e.obj == other and e.attr not in base_attrs]
+            res = []
+            for e in loads:
+                okk = DISCRIMINATOR in known_equal(e, e.sc)
+                res.append((okk, "%s.%s is read after uint_maxval compared equal" % (other, e.attr) if okk else
+                            "%s.%s is evaluated where %s.uint_maxval may differ: a log/linear pair raises AttributeError instead of TypeError"
+                            % (other, e.attr, other), fact_strs(e)))
+            if loads:
+                agg(ctx, "guard-order", m, loads[0].node, "reads of log-only attributes of `%s` in %s" % (other, m.qualname),
+                    "the counter-type discriminator is compared before attributes a linear sketch does not have "
+                    "(so a log/linear pair raises TypeError, not AttributeError)", res)
         # ---- ctor-attr
         defs = {}
         for d in F.attr_defs(cls):
@@ -133,6 +170,16 @@ def rule_mergeguard(ctx, classes=SKETCH_CLASSES):
                     why = "self.%s = %s is not a NumPy scalar built from the parameter `%s`" % (a, unparse(d.value, 50), a)
             ctx.ob("ctor-attr", F.ctor(cls), ds[0].stmt if ds else F.ctor(cls).node, "self.%s = np.T(%s)" % (a, a),
                    "compared attribute is the constructor parameter as a NumPy scalar (value comparison)", okk, "" if okk else why)
+
+
+def _effectful_call(ev):
+    """A call to something that is not a known-pure builtin/constructor (used on refusal paths only)."""
+    name = ev.name or ""
+    last = name.split(".")[-1]
+    if last in ("TypeError", "ValueError", "str", "repr", "format", "isinstance", "type", "len", "int", "float", "bool", "getattr", "hasattr",
+                "uint8", "uint16", "uint32", "uint64", "int64", "float64", "min", "max", "abs", "all", "any", "array_equal"):
+        return False
+    return True
 
 
 def _attr_pair(c, other):
@@ -1043,7 +1090,8 @@ def rule_deleg(ctx, classes=SKETCH_CLASSES):
             if mname == "update":
                 _check_update(ctx, F, cls, m)
             elif mname == "update_ngram":
-                _check_loop_call(ctx, m, "keys", "add_ngram", ["key", "ngram"], "update_ngram(keys, n) == add_ngram(key, n) for each key in order")
+                _deleg_loops(ctx, F, m, "add_ngram", "update_ngram(keys, n) == add_ngram(key, n) for each key in order", want_dispatch=False,
+                             extra_args=[m.params[2]] if len(m.params) > 2 else ["ngram"])
             elif mname == "__getitem__" and cls.module.short == "countmin":
                 rets = [n for n in walk_no_nested(m.node) if isinstance(n, ast.Return)]
                 okk = len(rets) == 1 and isinstance(rets[0].value, ast.Call) and dotted(rets[0].value.func) == "self.query" \
@@ -1051,63 +1099,104 @@ def rule_deleg(ctx, classes=SKETCH_CLASSES):
                 ctx.ob("deleg", m, rets[0] if rets else m.node, "return self.query(key)", "sketch[key] == sketch.query(key)", okk)
 
 
-def _for_loops(m):
-    return [n for n in walk_no_nested(m.node) if isinstance(n, ast.For)]
+def _deleg_loops(ctx, F, m, callee, goal, want_dispatch, extra_args=()):
+    """Path-based delegation check for update()/update_ngram():
+      * every normal exit ran exactly one loop over the argument (or over its .items() on the dict side of the isinstance dispatch);
+      * every iteration of that loop calls self.<callee> exactly once with the loop's element(s) (+ extra_args), in order;
+      * self.<callee> is called nowhere else."""
+    w = F.walk(m)
+    keysp = m.params[1] if len(m.params) > 1 else "keys"
+    cname = "self." + callee
+    calls = [e for e in w.events if e.kind == "call" and isinstance(e.node, ast.Call) and dotted(e.node.func) == cname]
+    starts = [e for e in w.events if e.kind == "loopstart" and isinstance(e.node, ast.For)]
 
+    def mode(ls):
+        it = ls.node.iter
+        if isinstance(it, ast.Name) and it.id == keysp:
+            return "seq"
+        if isinstance(it, ast.Call) and dotted(it.func) == keysp + ".items" and not it.args and not it.keywords:
+            return "items"
+        return "other"
 
-def _check_loop_call(ctx, m, iter_name, callee, argnames, goal, node=None, loops=None):
-    loops = loops if loops is not None else _for_loops(m)
-    okk = None
-    why = "no `for key in %s: self.%s(...)` found: delegation shape not understood" % (iter_name, callee)
-    for lp in loops:
-        calls = [c for c in calls_in(lp) if dotted(c.func) == "self." + callee]
-        if isinstance(lp.iter, ast.Name) and lp.iter.id == iter_name and isinstance(lp.target, ast.Name):
-            body = [s for s in lp.body if not (isinstance(s, ast.Expr) and isinstance(s.value, ast.Constant))]
-            if len(body) == 1 and isinstance(body[0], ast.Expr) and isinstance(body[0].value, ast.Call) and dotted(body[0].value.func) == "self." + callee:
-                c = body[0].value
-                exp = [lp.target.id] + argnames[1:]
-                if [unparse(a) for a in c.args] == exp and not c.keywords and not lp.orelse:
-                    okk = True
-                else:
-                    okk, why = False, "each element is passed on as `%s`, not self.%s(%s)" % (unparse(c, 60), callee, ", ".join(exp))
-            elif len(calls) != 1:
-                okk, why = False, "the loop over `%s` calls self.%s %d times per element" % (iter_name, callee, len(calls))
-        elif calls and okk is None:
-            # the single-item method is called in a loop over something other than the argument itself
-            okk, why = False, "elements are taken from `%s`, not from `%s` in order" % (unparse(lp.iter, 40), iter_name)
-    ctx.ob("deleg", m, node or (loops[0] if loops else m.node), "for key in %s: self.%s(%s)" % (iter_name, callee, ", ".join(argnames)), goal, okk, "" if okk else why)
+    def dict_side(ev):
+        """True/False: the path decided isinstance(keys, Dict) that way; None: not decided."""
+        for (_, _, cc) in ev.path:
+            for c in conjuncts(cc):
+                pol = True
+                while c[0] == "not":
+                    c, pol = c[1], not pol
+                if c[0] == "atom" and isinstance(c[1], tuple) and c[1][0] == "truth":
+                    try:
+                        t = ast.parse(c[1][1], mode="eval").body
+                    except SyntaxError:
+                        continue
+                    if isinstance(t, ast.Call) and dotted(t.func) == "isinstance" and len(t.args) == 2 and isinstance(t.args[0], ast.Name) \
+                            and t.args[0].id == keysp and (dotted(t.args[1]) or "").split(".")[-1] in ("Dict", "dict", "Mapping"):
+                        return pol
+        return None
+
+    res = []
+    rets = [e for e in w.events if e.kind == "ret"]
+    for r in rets:
+        pre = on_path(w.events, r)
+        ls = [x for x in pre if x in starts and any(c.loops and c.loops[0] is x.loop for c in calls)]
+        stray = [c for c in pre if c in calls and not c.loops]
+        side = dict_side(r)
+        if stray:
+            res.append((False, "self.%s is also called outside the loop" % callee, fact_strs(r)))
+        elif len(ls) != 1:
+            res.append((False, "%d delegation loops on one path" % len(ls), fact_strs(r)))
+        elif want_dispatch and side is None:
+            res.append((False, "a path does not decide isinstance(%s, Dict)" % keysp, fact_strs(r)))
+        else:
+            md = mode(ls[0])
+            want = "items" if (want_dispatch and side) else "seq"
+            okk = md == want
+            res.append((okk, "loop over %s on the %s side" % ("keys.items()" if md == "items" else "keys", "dict" if side else "sequence") if okk else
+                        ("the %s side iterates `%s`" % ("dict" if side else "sequence", unparse(ls[0].node.iter, 40))), fact_strs(r)))
+    agg(ctx, "deleg", m, m.node, "%s: one loop per call" % m.qualname, goal, res or [(None, "no normal exit", [])])
+    # the loop bodies
+    res = []
+    for x in starts:
+        mine = [c for c in calls if c.loops and c.loops[0] is x.loop]
+        if not mine:
+            continue
+        md = mode(x)
+        tg = x.node.target
+        if md == "seq" and isinstance(tg, ast.Name):
+            exp = [tg.id] + list(extra_args)
+        elif md == "items" and isinstance(tg, (ast.Tuple, ast.List)) and len(tg.elts) == 2 and all(isinstance(e, ast.Name) for e in tg.elts):
+            exp = [tg.elts[0].id] + ([tg.elts[1].id] if want_dispatch else []) + list(extra_args)
+        else:
+            res.append((False, "elements are taken from `%s`, not from `%s` in order" % (unparse(x.node.iter, 40), keysp), []))
+            continue
+        if x.node.orelse or len(mine[0].loops) != 1:
+            res.append((False, "nested / for-else delegation loop", []))
+            continue
+        ends = [e for e in w.events if e.kind == "loopend" and e.loop is x.loop]
+        for le in ends:
+            inbody = [c for c in on_path(w.events, le) if c in mine]
+            if len(inbody) != 1:
+                res.append((False, "the loop over `%s` calls self.%s %d times per element" % (keysp, callee, len(inbody)), fact_strs(le)))
+                continue
+            c = inbody[0].node
+            got = [unparse(resolve_temps(m.node, a_)) for a_ in c.args]
+            okk = got == exp and not c.keywords
+            res.append((okk, "self.%s(%s) per element" % (callee, ", ".join(exp)) if okk else
+                        "each element is passed on as `%s`, not self.%s(%s)" % (unparse(c, 60), callee, ", ".join(exp)), fact_strs(le)))
+        broken = [n for b_ in x.node.body for n in walk_no_nested(b_) if isinstance(n, (ast.Break, ast.Continue, ast.Return))]
+        if broken:
+            res.append((False, "the loop can skip or stop before the last element (%s)" % type(broken[0]).__name__.lower(), []))
+    agg(ctx, "deleg", m, starts[0].node if starts else m.node, "%s: loop body" % m.qualname, goal, res or [(False, "no loop delegating to self.%s" % callee, [])])
 
 
 def _check_update(ctx, F, cls, m):
     hll = cls.module.short == "hyperloglog"
-    ifs = [n for n in m.body() if isinstance(n, ast.If)]
-    if hll and not ifs:
+    if hll:
         # keys only: iterating a dict yields its keys
-        _check_loop_call(ctx, m, "keys", "add", ["key"], "update(list|dict) == add(key) per element / per dict key (multiplicities ignored)")
-        return
-    if len(ifs) != 1:
-        ctx.ob("deleg", m, m.node, "update dispatch", "update() has one isinstance(keys, Dict) dispatch", None, "found %d ifs" % len(ifs))
-        return
-    i = ifs[0]
-    t = i.test
-    okt = isinstance(t, ast.Call) and dotted(t.func) == "isinstance" and len(t.args) == 2 and isinstance(t.args[0], ast.Name) \
-        and t.args[0].id == "keys" and (dotted(t.args[1]) or "").split(".")[-1] in ("Dict", "dict", "Mapping")
-    ctx.ob("deleg", m, i, "if %s" % unparse(t), "dict inputs are recognised by isinstance(keys, Dict)", okt)
-    # dict branch: for key, value in keys.items(): self.add(key, value)
-    okk, why = False, "no `for key, value in keys.items(): self.add(key, value)`"
-    for lp in [n for n in i.body if isinstance(n, ast.For)]:
-        if isinstance(lp.iter, ast.Call) and dotted(lp.iter.func) == "keys.items" and isinstance(lp.target, ast.Tuple) and len(lp.target.elts) == 2:
-            kn, vn = [e.id if isinstance(e, ast.Name) else None for e in lp.target.elts]
-            if len(lp.body) == 1 and isinstance(lp.body[0], ast.Expr) and isinstance(lp.body[0].value, ast.Call):
-                c = lp.body[0].value
-                want = [kn] if hll else [kn, vn]
-                if dotted(c.func) == "self.add" and [unparse(a) for a in c.args] == want and not c.keywords:
-                    okk = True
-                else:
-                    why = "dict branch calls `%s`" % unparse(c, 60)
-    ctx.ob("deleg", m, i, "for key, value in keys.items(): self.add(key, value)", "update(dict) == add(key, value) per item", okk, "" if okk else why)
-    _check_loop_call(ctx, m, "keys", "add", ["key"], "update(list) == add(key) per element in order", node=i,
-                     loops=[n for n in i.orelse if isinstance(n, ast.For)])
+        _deleg_loops(ctx, F, m, "add", "update(list|dict) == add(key) per element / per dict key (multiplicities ignored)", want_dispatch=False)
+    else:
+        _deleg_loops(ctx, F, m, "add", "update(dict) == add(key, value) per item; update(list) == add(key) per element in order", want_dispatch=True)
 
 
 def ngram_kernels(F, classes=SKETCH_CLASSES):
@@ -1133,7 +1222,7 @@ def rule_window(ctx, classes=SKETCH_CLASSES):
     for cls, meth, k in ngram_kernels(F, classes):
         w = walk_kernel(F, k)
         keyp = [p for p, t in k.ptypes.items() if t.kind == "bytes"][0]
-        calls = [e for e in w.events if e.kind == "call" and e.callee is not None and e.callee.is_kernel]
+        calls = [e for e in w.events if e.kind == "call" and e.callee is not None and e.callee.is_kernel and not getattr(e, "inlined", False)]
         single = [c for c in calls if not c.loops]
         looped = [c for c in calls if c.loops]
         L = Lin.term(("len", keyp))
@@ -1172,9 +1261,21 @@ def rule_window(ctx, classes=SKETCH_CLASSES):
                          "window loop entered although len(key) < n is possible" if not p else "multiplicity is not 1"), fact_strs(c)))
         agg(ctx, "window", k, looped[0].node if looped else k.node, "%s: window loop" % k.name,
             "len(key) > n: every length-n window is added once, in order", res)
-        # exactly these two call sites
-        sites = {id(c.node) for c in calls}
-        ctx.ob("window", k, k.node, "%s: %d add call sites" % (k.name, len(sites)), "one whole-key call and one window call, nothing else", len(sites) == 2 and bool(single) and bool(looped))
+        # exactly these two shapes: every normal exit saw either one whole-key call and no window loop, or one window loop
+        # (one add per iteration) and no other add
+        res = []
+        for r in [e for e in w.events if e.kind == "ret"]:
+            pre = on_path(w.events, r)
+            s_here = [c for c in pre if c in single]
+            l_here = [x for x in pre if x.kind == "loopstart" and any(c.loops[0] is x.loop for c in looped)]
+            okk = (len(s_here) == 1 and not l_here) or (not s_here and len(l_here) == 1)
+            res.append((okk, "one whole-key add or one window loop" if okk else
+                        "%d whole-key add(s) and %d window loop(s) on one path" % (len(s_here), len(l_here)), fact_strs(r)))
+        for le in [x for x in w.events if x.kind == "loopend" and any(c.loops[-1] is x.loop for c in looped)]:
+            inbody = [c for c in on_path(w.events, le) if c in looped and c.loops[-1] is le.loop]
+            res.append((len(inbody) == 1, "one add per window" if len(inbody) == 1 else "%d adds in one iteration" % len(inbody), fact_strs(le)))
+        agg(ctx, "window", k, k.node, "%s: add call sites" % k.name, "one whole-key call or one window loop with one add per window, nothing else",
+            res if (single and looped) else [(False, "whole-key call or window loop missing", [])])
         # state threaded unchanged: every other argument is the kernel's own same-named parameter
         res = []
         for c in calls:
